@@ -81,6 +81,22 @@ CLAIMED["C04"] = dict(
     note=_AES_NOTE, technique="Lean 4 proof of the specification laws + differential correspondence per family",
     engine="AES", ref="5 C04")
 
+CLAIMED["C12"] = dict(
+    text="Proof (Lean 4) over the resolver programs REGENERATED from the disassembly on every run: exact symbolic "
+         "execution of the 64 <entry>_dispatch_init routines (paths_complete: every one of the 2^160 CPUID/XCR0 "
+         "assignments follows one enumerated path), verified path checker (checkResolver_sound): under every "
+         "architecturally consistent configuration the selected symbol's reachable ISA classes (from the disassembly, "
+         "through internal calls) are available; entry points of one shared object have the same resolver skeleton "
+         "(renaming equivariance => same family for every configuration); binding stable. Per run the kernel "
+         "re-evaluates the two obligations by decide +kernel. Translator validated by running the real resolvers "
+         "under the ISAL_CRYPTO_VERIF virtual-CPUID hook. Found and fixed F10, F11.",
+    note="Trusted: Lean kernel + standard axioms; tools/gen_dispatch.py + disasm.py (objdump front end, ISA class "
+         "table: unknown mnemonics fail the check); reqBits/archRules from the Intel SDM; explicit conventions the "
+         "library itself assumes (AES-NI+PCLMULQDQ with SSE4.1 for the AES entry points per their @requires, BMI1/2 "
+         "with AVX2 'level 04', VAES=>AES-NI, VPCLMULQDQ=>PCLMULQDQ) are hypotheses of the theorem.",
+    technique="Lean 4 reflective proof over a model regenerated from the disassembly + translator validation under a CPUID hook",
+    engine="Dispatch", ref="4.3, 5 C12")
+
 REASON_TODO = "check not built yet in this session (work in progress, see DESIGN.md status section)"
 
 props = [json.loads(l) for l in open(os.path.join(V, "properties.jsonl"))]
@@ -112,7 +128,7 @@ except Exception:
 
 m = {
     "version": 1,
-    "setup_cmd": "cd /verif/lean && lake build",
+    "setup_cmd": "cd /verif && python3 tools/gen_all.py && cd lean && lake build",
     "hooks": {
         "guard": "ISAL_CRYPTO_VERIF",
         "enable": "make -f Makefile.unx D=ISAL_CRYPTO_VERIF lib (tools/build_repo.py variant 'hook'); NASM sees -DISAL_CRYPTO_VERIF",
@@ -121,6 +137,8 @@ m = {
         "add_only": True,
     },
     "engines": [
+        {"name": "Dispatch", "path": "lean/IsalVerif/Impl/Dispatch.lean", "serves_properties": ["C12"],
+         "kind_free_text": "mini-x86 interpreter + exact symbolic execution + verified path checker; tools/gen_dispatch.py translator; harness/drv_dispatch.c under the hook"},
         {"name": "AES", "path": "lean/IsalVerif/Spec/Aes.lean", "serves_properties": ["C02", "C03", "C04", "C07"],
          "kind_free_text": "executable standards (FIPS-197, SP 800-38D, IEEE 1619, SP 800-38A) + GcmStream context model; harness/drv_aes.c"},
         {"name": "HashMB", "path": "lean/IsalVerif/Impl/HashMB.lean", "serves_properties": ["C01", "C06", "C11", "C15", "C20"],
